@@ -446,25 +446,33 @@ Example go_format_base_ex :
 Proof. repeat split; try (vm_compute; reflexivity). eexists. vm_compute. reflexivity. Qed.
 
 (* ------------------------------------------------------------------------------------ *)
-(* 5. round_half_even: NOT proved.  The model (validated on 8,000 Round vectors) shows    *)
-(*    that the property still fails at the predecessor of 0.5; the witnesses below are    *)
-(*    computed on the model and agree with the Go code (harness/vectors/numbers).         *)
+(* 5. round_half_even: NOT proved, and false as stated even for the repaired code.        *)
+(*    Round shifts the shortest decimal text of x by p places and reads it back as a       *)
+(*    double (multByPow10); when the shifted decimal v is not representable, the double    *)
+(*    nearest to v can be an exact n + 0.5 although v is not, and is then rounded as a tie. *)
+(*    With 17 significant digits this happens for |x| * 10^p >= about 10^15 (below 2^53):   *)
+(*    see round_false_tie.  The witnesses are computed on the model, which agrees with the  *)
+(*    Go code on all Round vectors (harness/vectors/numbers).                               *)
 (* ------------------------------------------------------------------------------------ *)
 Definition dec (s : string) : f64 := match parse_float s with PFOk x => x | _ => S754_nan end.
 
-(* floor(x + 0.5) rounds up to 1 for the predecessor of 0.5 (x + 0.5 is a tie that rounds to 1.0) *)
-Example round_defect_pred_half :
-  go_round (dec "0.49999999999999994") None = dec "1" /\
-  go_round (dec "-0.49999999999999994") None = dec "-1" /\
-  go_format_base (dec "0.49999999999999994") None = LOk "1"%string.
+(* repaired (math.Round instead of floor(x + 0.5)): the predecessor of 0.5 rounds to 0,
+   $round(450359962737049.7, 1) is unchanged *)
+Example round_pred_half_repaired :
+  go_round (dec "0.49999999999999994") None = fzero /\
+  go_round (dec "-0.49999999999999994") None = fzero /\
+  go_format_base (dec "0.49999999999999994") None = LOk "0"%string /\
+  go_round (dec "450359962737049.7") (Some 1) = dec "450359962737049.7".
 Proof. repeat split; vm_compute; reflexivity. Qed.
 
-(* floor(intermed + 0.5) is inexact for odd intermed in [2^52, 2^53): on the original tree
-   $round(450359962737049.7, 1) was 450359962737049.8; repaired in /repo (commit 112215d,
-   "already an integer" branch, mirrored in the model) *)
-Example round_above_2_52_repaired :
-  go_round (dec "450359962737049.7") (Some 1) = dec "450359962737049.7".
-Proof. vm_compute. reflexivity. Qed.
+(* REMAINING DEFECT: 225179981368524.94 (shortest form 2.2517998136852494e+14) shifted by one
+   place is 2251799813685249.4, which lies in [2^51, 2^52) where doubles are 0.5 apart; the
+   nearest double is ...249.5, a "tie", rounded to the even ...250: the result is
+   225179981368525 instead of 225179981368524.9 *)
+Example round_false_tie :
+  format_float_g (dec "225179981368524.94") = "2.2517998136852494e+14"%string /\
+  go_round (dec "225179981368524.94") (Some 1) = dec "225179981368525".
+Proof. split; vm_compute; reflexivity. Qed.
 
 (* int64(float64) of a value beyond 2^63 is the amd64 "integer indefinite" value *)
 Example format_base_defect_overflow :
